@@ -2,6 +2,12 @@
 DEFERRED = "rules for this property are not armed yet (build order: DESIGN.md Appendix D); not claimed until a self-tested rule exists"
 
 CLAIMS = {
+    "C03": {
+        "level": "other",
+        "text": "Structural clauses of the response discipline: (1) the writer API is linear by types — completing methods consume self, writers are neither Clone nor Copy, fields and constructors are private (signature/impl/ADT tables from the type-checked program; thorough tier: 10 compile_fail witnesses with compiling twins); (2) the pending terminator is flushed first with more_results=true in start/complete_one/error and with false in no_more_results/Drop, the status word carries bit 0x0008 exactly on the more_results path, consumed with take(); (3) Finalizer::Ok iff zero columns, Eof otherwise, none on finish_error; (4) Drop impls complete; (5) per enumerated loop-iteration path: no-reply commands write nothing, library-answered commands always write, default shim methods use their writer (found and fixed: default on_init sent no reply); (6) a row packet ends only on paths whose conditions imply col == columns.len(), binary cells only after columns.get(col). The packet grammar for arbitrary writer programs is NOT decided.",
+        "note": "Trusted: rustc's move checking; protocol grammar of OK/EOF/ERR as encoded in spec/. Does not model arbitrary shim programs.",
+        "technique": "type-level typestate (signature tables + compile_fail witnesses), path rules with branch-condition bounds, effect analysis per loop-iteration path",
+    },
     "C14": {
         "level": "other",
         "text": "OK-packet layout on every Ok path with both counts being the u64 parameters handed unmodified to the library lenenc writer; def-use of (rows, last_insert_id) from complete_one through the Finalizer aggregate into the OK writer's parameters in order; zero-column counter: +1 per end_row on every zero-column path, untouched by write_col, exactly one end_row per write_row, starts at 0, and completion reads the counter on a path on which nothing may have modified it (clobber-aware path-precise load) with last_insert_id 0.",
